@@ -58,7 +58,7 @@ PolyCases ==
      hr \in {0, 3}, sec \in 1..4, o \in Offsets}
 ZeroCases ==
   {[kind |-> "poly", polys |-> ps, off |-> o] :
-     ps \in {<<<<Z1>>>>, <<<<Z2>>>>, <<<<Z1>>, <<Shift(Z2, P(10, 0))>>>>, <<<<Z2, Shift(Z1, P(1, 1))>>>>,
+     ps \in {<<<<Z1>>>>, <<<<Z2>>>>, <<<<Z1>>, <<Shift(Z2, P(10, 0))>>>>,            \* (no "hole" in a zero-area shell: not a valid polygon)
              \* a zero-area member next to a member with area: the area-weighted centroid of the latter
              <<<<Z2>>, <<Shift(Closed(S3), P(20, 0))>>>>, <<<<Shift(Closed(RevS(S1)), P(20, 0))>>, <<Z1>>>>}, o \in Offsets}
 LineCases ==
